@@ -136,6 +136,84 @@ func zzUnsupported(msg string)           {}
 func zzIsSymbolic(v int) bool            { return false }
 func zzSchedule(reverse bool)            {}
 
+// structural equality by reflection; struct fields named in exclude are skipped, nil and empty slices/maps are equal
+func zzpDeepEq(a, b reflect.Value, excl map[string]bool) bool {
+	if a.IsValid() != b.IsValid() {
+		return false
+	}
+	if !a.IsValid() {
+		return true
+	}
+	if a.Type() != b.Type() {
+		return false
+	}
+	switch a.Kind() {
+	case reflect.Ptr, reflect.Interface:
+		if a.IsNil() || b.IsNil() {
+			return a.IsNil() && b.IsNil()
+		}
+		return zzpDeepEq(a.Elem(), b.Elem(), excl)
+	case reflect.Struct:
+		for i := 0; i < a.NumField(); i++ {
+			if excl[a.Type().Field(i).Name] {
+				continue
+			}
+			if !zzpDeepEq(a.Field(i), b.Field(i), excl) {
+				return false
+			}
+		}
+		return true
+	case reflect.Slice, reflect.Array:
+		if a.Len() != b.Len() {
+			return false
+		}
+		for i := 0; i < a.Len(); i++ {
+			if !zzpDeepEq(a.Index(i), b.Index(i), excl) {
+				return false
+			}
+		}
+		return true
+	case reflect.Map:
+		if a.Len() != b.Len() {
+			return false
+		}
+		for _, k := range a.MapKeys() {
+			if !zzpDeepEq(a.MapIndex(k), b.MapIndex(k), excl) {
+				return false
+			}
+		}
+		return true
+	case reflect.Bool:
+		return a.Bool() == b.Bool()
+	case reflect.Int, reflect.Int8, reflect.Int16, reflect.Int32, reflect.Int64:
+		return a.Int() == b.Int()
+	case reflect.Uint, reflect.Uint8, reflect.Uint16, reflect.Uint32, reflect.Uint64, reflect.Uintptr:
+		return a.Uint() == b.Uint()
+	case reflect.String:
+		return a.String() == b.String()
+	case reflect.Float32, reflect.Float64:
+		return a.Float() == b.Float()
+	case reflect.Func, reflect.Chan:
+		return a.Pointer() == b.Pointer()
+	}
+	return false
+}
+func zzDeepEqual(tag string, a, b interface{}, exclude string) {
+	excl := map[string]bool{}
+	start := 0
+	for i := 0; i <= len(exclude); i++ {
+		if i == len(exclude) || exclude[i] == ',' {
+			if i > start {
+				excl[exclude[start:i]] = true
+			}
+			start = i + 1
+		}
+	}
+	if !zzpDeepEq(reflect.ValueOf(a), reflect.ValueOf(b), excl) {
+		zzpFailed = append(zzpFailed, tag)
+	}
+}
+
 // hidden mutable state reachable through pointers from root (reflection; also unexported fields)
 func zzpCells(root interface{}) []reflect.Value {
 	var out []reflect.Value
